@@ -11,6 +11,7 @@
 EXTENDS XDM, TLC
 
 CONSTANTS Axes, Tests, Preds, ParenPreds,
+          DocSibs,    \* TRUE: documents with comment/PI siblings of the document element (lxml)
           Preds2      \* first predicates of two-predicate steps axis::test[p1][p2], p2 in {"1", "last()"}; {} = none
 
 VARIABLES cur
@@ -18,7 +19,7 @@ vars == <<parent, kind, cur>>
 
 StartNode == IF RootCfg = "R1" THEN 0 ELSE 1
 
-Init == TreeInit /\ cur = {StartNode}
+Init == (IF DocSibs THEN TreeInitDoc ELSE TreeInit) /\ cur = {StartNode}
 
 (* The constructs as operators on a node set S (shared with spec/TracePaths.tla) *)
 OpStep(S, ax, t)          == UNION {StepSet(ax, t, x) : x \in S}
